@@ -260,6 +260,7 @@ KANI_GROUPS = {
     # group: (harness filter, what a success means, is a failure a violation of the property on real code?)
     'float': ('float_axioms::', 'float axiom validated bit-precisely (kani-cbmc, loop-free full-domain harness)', False),
     'stats': ('stats_real::', 'REAL CacheStats (stats.rs compiled in place): counters behave as the sequential AtomicU64 shim of rule R7 states, for every pair of counter values (kani-cbmc, loop-free full-domain harness)', True),
+    'estimator': ('estimator_real::', 'REAL memory_estimator.rs compiled in place: built-in estimators = inline size + owned heap capacity; primitives / Option / Result / tuples / Box over primitives for the full domain, String capacity <= 4 and Vec<u32> capacity <= 3 BOUNDED (unwind 5)', True),
     'policy': ('policy_real::', 'REAL eviction_policy.rs compiled in place: hand-written eq is structural equality (full domain); From<&str> maps each documented name to its own variant (concrete inputs, loops fully unwound)', True),
 }
 
@@ -273,7 +274,7 @@ def kani_harnesses(prop, group):
 
     def run(tier):
         res = dict(obligations={}, violations=[], undecided=[], functions=[], checker_cmds=[], trusted={}, notes=[])
-        if tier != 'thorough':
+        if tier not in ('thorough', 'standin'):
             res['notes'].append('kani group %s (%s) runs in the thorough tier only' % (group, meaning[:90]))
             return res
         env = dict(os.environ, CARGO_NET_OFFLINE='true', CARGO_TARGET_DIR=os.path.join(WORK, 'kani-target'))
@@ -707,6 +708,24 @@ def main(argv):
                 undecided = [u for u in undecided if "outside the verifier's reach" not in u or any(u.startswith('unit %s:' % nu) for nu in nodyn)]
                 notes.append('BOUNDED STAND-IN (not a proof): %d obligations of functions outside the verifier\'s reach were checked only by the bounded search on the real code: %s; %s'
                              % (len(unreached), w['bound'], w['stats']))
+    # units whose bounded stand-in is a Kani group on the real source file
+    KANI_STANDIN = {'memory_estimator': 'estimator', 'policy': 'policy'}
+    kunits = sorted(set(o.split('/')[0] for o in unreached if o.split('/')[0] in KANI_STANDIN))
+    if not reported and kunits:
+        for ku in kunits:
+            r = kani_harnesses(prop, KANI_STANDIN[ku])('standin')
+            checker_cmds += r.get('checker_cmds', [])
+            for k, v in r['obligations'].items():
+                obligations[k] = v
+            if r['violations']:
+                for v in r['violations']:
+                    failed_names.add(v['obligation'])
+                    reported.append(v)
+            elif r['undecided']:
+                undecided += r['undecided']
+            else:
+                undecided = [u for u in undecided if not (u.startswith('unit %s:' % ku) and "outside the verifier's reach" in u)]
+                notes.append('BOUNDED STAND-IN (not a proof): obligations of unit %s outside the verifier\'s reach were checked only by Kani on the real source file: %s' % (ku, KANI_GROUPS[KANI_STANDIN[ku]][1]))
     explored = None
     if tier == 'thorough' and not reported and bounded is None:
         dunits = [u for u in spec['units'] if u in DYNAMIC_UNITS]
